@@ -9,6 +9,7 @@ from hxv.ref import resample as rr
 from hxv.runner import Shard
 
 PROP = "C12"
+CASE_TIMEOUT = 2.0
 RULE = (
     "case = (timeframe, integer-grid stream whose timestamps have several gaps of 2..40 buckets, duplicates and "
     "bursts, preload count, append chunk sizes, entry point CandleManager/Indicator/Hexital member); oracles = "
